@@ -22,6 +22,15 @@ PANICKY_STD = {
     'core::num::<impl u64>::div_ceil': 'division by zero',
     'std::time::Instant::duration_since': 'ordering',
     'core::slice::<impl [T]>::windows': 'size 0',
+    # byte offsets into a String / str must fall on a character boundary
+    'std::string::String::truncate': 'offset not on a char boundary',
+    'std::string::String::split_off': 'offset not on a char boundary',
+    'std::string::String::insert': 'offset not on a char boundary',
+    'std::string::String::insert_str': 'offset not on a char boundary',
+    'std::string::String::remove': 'offset not on a char boundary',
+    'std::string::String::drain': 'range not on char boundaries',
+    'std::string::String::replace_range': 'range not on char boundaries',
+    'core::str::<impl str>::split_at': 'offset not on a char boundary',
 }
 
 
@@ -625,6 +634,13 @@ def run_entries(ctx, rid, entries, text, floor_bodies=3):
                 ctx.undecided(rid, '%s: %d debug-only assertion(s) beyond the tabled %d (%d on internal state, %d on state a decoded input flows into): '
                               'that their conditions hold for every input is not decided (%s)' % (
                                   top, len(extra), mx, len(inner), len(extra) - len(inner), '; '.join(d for _, _, d in extra[:3])))
+            elif top not in baseline_functions() and kind == 'std-panics' and any(fixed_str_offset(F, b, bi) for (b, bi, d) in lst):
+                # new code, but this much is decided: a String is cut at a FIXED byte offset and nothing in the function asks
+                # whether that offset is a character boundary - any text with a multi-byte character across it panics
+                hb, hbi, hd = [x for x in lst if fixed_str_offset(F, x[0], x[1])][0]
+                ctx.bad(rid, '%s:%s:fixed-byte-offset' % (top, kind),
+                        '%s cuts a string at a constant byte offset (%s) without asking is_char_boundary: text with a multi-byte character across that offset makes it panic '
+                        '(the process aborts in the middle of a session)' % (top, hd), term_loc(hb, hbi))
             elif top not in baseline_functions() and kind in ('index', 'assert:BoundsCheck') and any(hostile_index(F, b, bi) for (b, bi, d) in lst):
                 # new code, but this much is decided: the position comes out of a decoded structure and is never compared with
                 # the length of what it indexes - a crafted file chooses it freely
@@ -650,12 +666,84 @@ def run_entries(ctx, rid, entries, text, floor_bodies=3):
                 if top in PRECOND:
                     continue      # constructor chains: checked at the outermost caller
                 ok = precond_guarded(F, cg, b, bb, argi, 0)
+                if ok is None:
+                    ctx.undecided(rid, '%s hands %s a value that a loader validated on a preamble of generic width decoded from the same bytes: that it is the same number is not decided' % (top, pf.split('::')[-1]))
+                    continue
                 ctx.check(ok, rid, '%s:%s-unvalidated' % (top, pf.split('::')[-1]), 'argument validated before the asserting constructor',
                           '%s passes a value that was not validated to %s, which assert!s: a crafted input aborts the process' % (top, pf), term_loc(b, bb))
         if len(graph) < floor_bodies:
             ctx.missing(rid, 'call graph from %s has only %d bodies' % (roots, len(graph)))
     if not seen_cfg:
         ctx.missing(rid, 'entry points %s' % entries)
+
+
+def _loader_validates(F, path):
+    """True / False / None / 'no': a crate fn that decodes an artifact from bytes after validating the block size of a preamble
+    decoded from the SAME bytes: True when the preamble's leading field has the type of the artifact's, False when the types
+    differ, None when a type is generic; 'no' when the function is not of that shape"""
+    bodies = [x for x in [F.body(path)] + list(F.nested(path)) if x is not None]
+    for xb in bodies:
+        xfl = flow_of(xb)
+        des = xfl.calls(lambda c: c == 'bincode::deserialize' or c.endswith('bincode::deserialize'))
+        vals = xfl.calls(lambda c: c in VALIDATORS or c.endswith('::validate_block_size'))
+        if len(des) < 2 or not vals:
+            continue
+        oks = ok_assign_blocks(xb, 'Ok')
+        if not oks or not all(any(xfl.guarded_by(ob, vb, 'Ok') for vb, _ in vals) for ob in oks):
+            return 'no'
+        # which decode feeds the validator, which the return
+        sig_ = lambda op: {(o.kind, str(o.key), o.bb) for o in xfl.origins(op) if o.kind == 'call' and str(o.key).endswith('deserialize')}
+        pre = set()
+        for vb, vt in vals:
+            pre |= sig_(vt['args'][0])
+        ret = set()
+        for ob in oks:
+            for st in xb.blocks[ob]['stmts']:
+                if st['rv']['k'] == 'agg' and st['rv'].get('vname') == 'Ok' and st['rv']['ops']:
+                    ret |= sig_(st['rv']['ops'][0])
+        if pre & ret:
+            return True
+        if not pre or not ret:
+            return None         # the loader validates something before it returns: what, is not read
+        same_bytes = len({frozenset((o.kind, str(o.key), o.bb) for o in xfl.origins(xb.blocks[k[2]]['term']['args'][0])) for k in pre | ret}) == 1
+        if not same_bytes:
+            return None
+
+        def first_field_ty(k):
+            ty = xb.local_ty(xb.blocks[k[2]]['term']['dst']['l'])
+            m = re.match(r'^std::result::Result<(.+?)(?:<.*>)?, ', ty)
+            inner = re.match(r'^std::result::Result<(.*), std::boxed::Box<', ty)
+            full = inner.group(1) if inner else (m.group(1) if m else '')
+            base = re.sub(r'<.*$', '', full)
+            adt = F.adts.get(base) or F.adts.get(base.replace('copia::', ''))
+            targs = re.findall(r'<(.*)>$', full)
+            if adt is None or not adt.get('variants') or not adt['variants'][0].get('fields'):
+                return None
+            fty = adt['variants'][0]['fields'][0].get('ty', '')
+            if re.fullmatch(r'[A-Z]\w*(/#\d+)?', fty) or '/#' in fty:
+                # the field's type is a parameter of the struct: take the argument at the use site
+                fty = targs[0].split(',')[0].strip() if targs else fty
+            return fty
+        tp = {first_field_ty(k) for k in pre}
+        tr = {first_field_ty(k) for k in ret}
+        generic = lambda t: t is None or '/#' in t or ' as ' in t or re.fullmatch(r'[A-Z]\w*', t or '') is not None
+        if any(generic(t) for t in tp | tr):
+            return None
+        return tp == tr
+    return 'no'
+
+
+def fixed_str_offset(F, b, bi):
+    t = b.blocks[bi]['term']
+    c = callee(t) or ''
+    if t['k'] != 'call' or c not in ('std::string::String::truncate', 'std::string::String::split_off', 'core::str::<impl str>::split_at') or len(t['args']) < 2:
+        return False
+    fl = flow_of(b)
+    os_ = [o for o in fl.origins(t['args'][1]) if o.kind != 'comb']
+    if not os_ or not all(o.kind == 'const' for o in os_):
+        return False
+    asks = fl.calls(lambda c2: c2.split('::')[-1] in ('is_char_boundary', 'floor_char_boundary', 'ceil_char_boundary', 'char_indices'))
+    return not asks
 
 
 def precond_guarded(F, cg, b, bb, argi, depth):
@@ -692,6 +780,20 @@ def precond_guarded(F, cg, b, bb, argi, depth):
             rng = rng or (good and bool(e_) and fl.cfg.edges_guard(e_, bb))
     if p2 and rng:
         return True
+    # the value is a field of what a crate loader returned (`read_artifact(path).await?.block_size`): the loader validated a
+    # PREAMBLE it decoded from the same bytes.  That is the same number only if the preamble field has the wire type of the
+    # artifact's own leading field (bincode writes a usize as 8 bytes, a u32 as 4: a u32 preamble in front of a usize field sees
+    # the low half only) - decided from the two types; a generic width is not decided.
+    if ao and all(o.kind == 'call' and F.body(str(o.key)) is not None and o.path[-1:] == ('block_size',) for o in ao):
+        verdicts = []
+        for o in ao:
+            verdicts.append(_loader_validates(F, str(o.key)))
+        if all(v is True for v in verdicts):
+            return True
+        if any(v is False for v in verdicts):
+            return False
+        if any(v is None for v in verdicts) and not any(v == 'no' for v in verdicts):
+            return None
     # the value is self.config.block_size of an engine built by a validating constructor
     if ao and all(o.path[-2:] == ('config', 'block_size') for o in ao):
         return True
